@@ -214,6 +214,23 @@ def check(run, replay):
     diffs = vlib.correspond(run, "iterraw(windows)", model, [vh, "iterraw"], cs, tag="iterraw", nontrivial=lambda c, m, i: (c[0], c[1]),
                             bucket=lambda c, m, i: "unchanged" if m and m[0] == G_join(c) else "canonicalised")
     tie_broken("iterraw", diffs, ["a", "b", "syntax"])
+    # property: the windows iterator against the windows canonical form, inside the domain of C31_iterator_reads_canon_windows
+    impl = impl_eval("iterraw", cs)
+    specw = model_eval("canonw", [c[:2] for c in cs])
+    shown = 0
+    for c, i, sw in sorted(zip(cs, impl, specw), key=lambda x: len(x[0][0]) + len(x[0][1])):
+        if sw[1] != b"1":
+            run.count("iter-vs-canon(windows)", None, bucket="outside theorem domain (drive-relative, '//?x', leading '..', empty)")
+            continue
+        run.count("iter-vs-canon(windows)", None, nontrivial=(c[0], c[1]), bucket="agree" if i == [sw[0]] or (not i and not sw[0]) else "differ")
+        if not (i == [sw[0]] or (not i and not sw[0])):
+            run.stream("iter-vs-canon(windows)")["disagreements"] += 1
+            if shown < 3:
+                shown += 1
+                run.violation("iterw:%s:%s" % (c[0].hex(), c[1].hex()),
+                              "PathIterator(%r, %r, windows).read() = %s but the windows canonical form is %s" % (c[0], c[1], vlib.show(i), vlib.show(sw[0])),
+                              {"input": {"a": vlib.show(c[0]), "b": vlib.show(c[1])}, "impl": vlib.show(i), "spec": vlib.show(sw[0]),
+                               "how": "echo '%s' | build/harness/vh_c31 iterraw" % vlib.enc_case(c)})
     cs = [G.gen_wpm_case(rng) for _ in range(8000 if quick else 200000)]
     cs = [list(c) for c in dict.fromkeys(tuple(c) for c in cs)]
     diffs = vlib.correspond(run, "pm(windows)", model, [vh, "pm"], cs, tag="pm", nontrivial=pm_nt, bucket=pm_bucket)
